@@ -59,6 +59,16 @@ Theorem C08_only_non_op_return_outputs_receive : forall height time minimum txi 
     (fst k = tx_id tx /\ nth (N.to_nat (snd k)) (tx_outs tx) true = false).
 Proof. intros. eapply index_runes_shape; eassumption. Qed.
 
+(* Chain level: after every block, every key (txid, vout) of the balance table is output vout of an
+   indexed transaction with that txid, and that output is not OP_RETURN ([keys_ok_chain] walks
+   blocks and states together, [seen] = the transactions indexed so far). *)
+Theorem C08_no_op_return_outpoint_holds_runes : forall first height bs sts,
+  index_chain first height empty_state bs = Ok sts -> keys_ok_chain [] bs sts.
+Proof.
+  intros first height bs sts Q. eapply index_chain_keys; [exact Q|intros k m []|].
+  intros k H. exfalso. apply H. reflexivity.
+Qed.
+
 (* Non-vacuity: block 1 etches an unnamed rune (premine 100, terms amount 7 cap 2) into output 0;
    block 2 mints once and sends 30 to an OP_RETURN output: 77 + 30 burned = 100 + 1 * 7. *)
 Example C08_nonvacuous :
@@ -76,3 +86,4 @@ Print Assumptions C08_supply_conserved_from.
 Print Assumptions C08_no_zero_balances.
 Print Assumptions C08_no_unknown_rune.
 Print Assumptions C08_only_non_op_return_outputs_receive.
+Print Assumptions C08_no_op_return_outpoint_holds_runes.
